@@ -25,6 +25,9 @@ def constructs(table, col):
     yield "Columns: %s\nFilter: %s = 1" % (name, name)
     yield "Columns: %s\nFilter: %s = " % (name, name)
     yield "Columns: %s\nFilter: %s ~~ a" % (name, name)
+    # patterns the optimiser cannot turn into a substring match: the compiled expression is used
+    yield "Columns: %s\nFilter: %s ~ ^a.*b$\nFilter: %s !~~ A|B\nOr: 2" % (name, name, name)
+    yield "Stats: %s ~~ ^x+$\nStats: %s !~ [ab]c" % (name, name)
     yield "Columns: %s\nFilter: %s >= 5" % (name, name)
     yield "Columns: %s\nFilter: %s !>= x" % (name, name)
     yield "Columns: %s\nFilter: %s < 3\nNegate:" % (name, name)
